@@ -113,6 +113,7 @@ class Model:
         self.dropped_funcs = set()
         self.proxy_ambiguous = set()
         self.proxy_fall = set()
+        self.reordered_ever = False
         self.counter = 0
         self.new_units = []
 
